@@ -60,7 +60,7 @@ type Shape struct {
 	NAnon  int  // number of function literals inside
 }
 
-const NumKinds = 16
+const NumKinds = 18
 
 // NewShape draws a shape.
 func NewShape(r *Rand, kind int) Shape {
@@ -317,6 +317,39 @@ outer:
 	return %s
 }
 `, head, v[0], v[1], v[2], v[2], v[2], p[0]*100, v[0], v[1], v[2], v[0])
+	case 16: // doubling / shifting counters beside an ordinary counted loop
+		sh := []int{1, 1, 0, 2}[p[0]%4]
+		return fmt.Sprintf(`%s(n int) int {
+	%s := 0
+	for %s := 1; %s < n; %s <<= %d {
+		%s++
+		if %s > 64 {
+			break
+		}
+	}
+	for %s := 0; %s < n; %s++ {
+		%s += %s
+	}
+	return %s
+}
+`, head, v[0], v[1], v[1], v[1], sh, v[0], v[0], v[2], v[2], v[2], v[0], v[2], v[0])
+	case 17: // a long dependent chain derived from the counter, continuing across a branch
+		var b strings.Builder
+		fmt.Fprintf(&b, "%s(n int, flag bool, out []int) {\n\tfor %s := 0; %s < n; %s++ {\n\t\ta0 := %s + %d\n", head, v[0], v[0], v[0], v[0], p[0])
+		na := 104 + p[1]*5
+		for k := 1; k < na; k++ {
+			op := "+"
+			if (k+p[2])%7 == 0 {
+				op = "-"
+			}
+			fmt.Fprintf(&b, "\t\ta%d := a%d %s %d\n", k, k-1, op, 1+(k+p[3])%3)
+		}
+		fmt.Fprintf(&b, "\t\tif flag {\n\t\t\tout[0] = a%d\n\t\t}\n\t\tb0 := a%d + 1\n", na-1, na-1)
+		for k := 1; k < 12+p[2]; k++ {
+			fmt.Fprintf(&b, "\t\tb%d := b%d + 1\n", k, k-1)
+		}
+		fmt.Fprintf(&b, "\t\tout[1] = b%d\n\t}\n}\n", 12+p[2]-1)
+		return b.String()
 	default: // 13: error handling chain with early returns
 		return fmt.Sprintf(`%s(a, b int) (int, error) {
 	if b == 0 {
